@@ -33,7 +33,9 @@ structure MPeer where
   accepted : Bool
   deriving Repr
 
-/-- `known_nodes.get(&peer_host_id)`. -/
+/-- `known_nodes.get(&peer_host_id)`.  `known_nodes` is a `HashMap` (a later insert of the same host id replaces the
+earlier one); `find?` returns the first match — the two agree because host ids of a peer list are distinct (both
+case-line parsers reject repeated ids; the servers' `system.peers` has one row per host id). -/
 def lookupKnown (known : List KNode) (id : Nat) : Option KNode := known.find? (fun k => decide (k.node.id = id))
 
 /-- The node object put into the ring for a peer: reused, re-created with the pool inherited, or new. -/
@@ -50,6 +52,27 @@ def pickNode (known : List KNode) (p : MPeer) : KNode :=
       else ⟨⟨k.node.id, k.node.dc, k.node.rack⟩, p.addr, true⟩   -- `inherit_with_ip_changed`: dc, rack of the old node
     else ⟨p.node, p.addr, true⟩                        -- `Node::new(peer_endpoint, ..)`
   | true, none => ⟨p.node, p.addr, true⟩
+
+/-- Which arm of the reuse `match` a peer takes, as observable from outside: the previous `Arc<Node>` itself
+(`reused`), a new object that inherits the old one's pool and settings (`inherited`), or a new node (`fresh`). -/
+inductive Arm where
+  | reused
+  | inherited
+  | fresh
+  deriving Repr, DecidableEq
+
+/-- The arm taken by `pickNode` (same guards, same order). -/
+def pickArm (known : List KNode) (p : MPeer) : Arm :=
+  match p.accepted, lookupKnown known p.node.id with
+  | false, some k =>
+    if !k.enabled && decide (k.node.dc = p.node.dc) && decide (k.node.rack = p.node.rack) && decide (k.addr = p.addr)
+    then .reused else .fresh
+  | false, none => .fresh
+  | true, some k =>
+    if k.enabled && decide (k.node.dc = p.node.dc) && decide (k.node.rack = p.node.rack) then
+      if k.addr = p.addr then .reused else .inherited
+    else .fresh
+  | true, none => .fresh
 
 /-- `calculate_new_topology`: new known nodes and ring entries, in metadata order. -/
 def newTopology (known : List KNode) (peers : List MPeer) : List KNode × List (Int × Node) :=
